@@ -527,4 +527,12 @@ def pinned_traces(tier):
         evs += [{"op": "c04.assign", "slide": 0, "shape": 0, "target": tgt, "level": "frame", "para": 0, "run": 0, "r": 0, "c": 0, "text": "after the failed save\nsecond"},
                 {"op": "checkpoint", "sink": "seekable"}, {"op": "restart"}]
         out.append({"property": ID, "seed": "late-failed-save-then-edit-%s" % tgt, "tier": "pinned", "config": {"pinned": True}, "start": [{"deck": "default"}], "events": evs})
+    # text assigned to the cells of a merged range: the origin AND the spanned cells (they keep what they are given)
+    evs = [{"op": "add_slide", "layout": 6}, {"op": "add_table", "slide": 0, "x": 0, "y": 0, "cx": 914400, "cy": 914400, "rows": 3, "cols": 3},
+           {"op": "cell_merge", "slide": 0, "shape": 0, "r": 0, "c": 0, "r2": 1, "c2": 1}]
+    for k, (r_, c_) in enumerate(((0, 0), (0, 1), (1, 0), (1, 1), (2, 2), (0, 1))):
+        evs.append({"op": "c04.assign", "slide": 0, "shape": 0, "target": "cell", "level": ("frame", "para", "shape", "run")[k % 4], "para": 0, "run": 0, "r": r_, "c": c_,
+                    "text": "cell %d%d\nsecond" % (r_, c_)})
+    evs += [{"op": "checkpoint", "sink": "seekable"}, {"op": "restart"}]
+    out.append({"property": ID, "seed": "cells-of-a-merged-range", "tier": "pinned", "config": {"pinned": True}, "start": [{"deck": "default"}], "events": evs})
     return out
